@@ -186,7 +186,7 @@ Proof.
       try (destruct io; [discriminate|]); pose proof (finish_imports _ _ _ _ _ _ _ _ _ _ _ _ _ H) as Hinc.
     1-7: intros rf Hrf; destruct (IH _ _ _ E rf Hrf) as (t & Ht & Hi); exists t; split; [exact Ht|apply Hinc; exact Hi].
     + intros rf Hrf. destruct (IHit _ _ _ E rf Hrf) as (t & Ht & Hi). exists t. split; [exact Ht|].
-      apply Hinc. apply in_or_app. left. exact Hi.
+      apply Hinc. right. apply in_or_app. left. exact Hi.
     + intros rf Hrf. destruct (IHit _ _ _ E rf Hrf) as (t & Ht & Hi). exists t. split; [exact Ht|apply Hinc; exact Hi].
 Qed.
 
